@@ -25,3 +25,10 @@ PROP = {
         "e2e: 'quiescent' = every call returned, the async sender flushed, the state reads Selected (or Close returned) and the reconnecting gauge was polled to zero within 5 s (the loop's deferred decrement runs just after the successful dial)",
     ],
 }
+
+
+MANIFEST = {
+    "text": "Coq theorems over ALL action sequences: the counters are part of the LTS state, updated at the code's inc/dec sites; ok_C20 accepts every run; inflight = number of W-bit calls in the waiting phase (>= 0, 0 at quiescence); dataSent = data frames appended to sockets; dataRecv counts only well-formed data frames dispatched while Selected; the per-outcome delta table (reply, peer reject: none, T3, disconnect, cancel, B1/B2 refusal, write error); the reconnecting gauge = number of running loops (>= 0, > 0 while a loop runs, 0 when quiet). Tied by e2e histories on HSMS-SS and SECS-I exercising every outcome, drops and reconnects, with the peer and the harness keeping independent frame counts; getters must equal them at quiescent points and the extracted monitor judges the logs. One SECS-I defect found (a block acknowledged at the instant of Close left uncounted) and repaired in the code (fix 56c729b).",
+    "note": 'dataRecv is compared only when every peer-written frame shows dispatch evidence. Two documentation ambiguities noted in the evidence (write errors on W-clear sends are counted; two reconnect loops can overlap for a moment). Passive roles and multi-block SECS-I peers not yet exercised.',
+    "technique": 'Rocq/Coq proof (counters as LTS state, inductive invariant) + extracted monitor over e2e logs + independent peer counts on both transports',
+}
